@@ -372,8 +372,10 @@ func (r *AlertRule) restoreCands(a *Alert, ts time.Time, grace time.Duration, s 
 	stored := time.Unix(int64(s.V), 0).UTC()
 	downAt := time.UnixMilli(s.T).UTC()
 	var out []Interval
-	// frac in [0, 1s): how much of the sample time is lost to the one second resolution.
-	for _, frac := range []time.Duration{0, time.Second - time.Millisecond} {
+	// The time spent pending may be taken from the sample time as it is or at one second resolution (as the stored
+	// activation time is): frac is what the second reading loses, which the sample time itself tells.
+	lost := time.Duration(((s.T%1000)+1000)%1000) * time.Millisecond
+	for _, frac := range []time.Duration{0, lost} {
 		spent := downAt.Add(-frac).Sub(stored)
 		remaining := r.For - spent
 		switch {
